@@ -14,6 +14,8 @@ def run(ctx):
     dyn.rule_dummy_delegation(ctx)
     dyncnf.rule_dynamic_clause_templates(ctx)
     dyncnf.rule_dynamic_variable_registration(ctx)
+    dyncnf.rule_removal_cleans_the_tables(ctx)
+    dyn.rule_decoders_keep_true_variables(ctx)
     dynatt.rule_attack_assumption_templates(ctx)
     dynalloc.rule_id_indexed_vectors(ctx)
     dyn.rule_cached_witness_consistent(ctx)
